@@ -101,6 +101,10 @@ def regression_messages(s):
         ("map-int64-key-value", KMap(**{fn("m_uint64_int64"): {2 ** 64 - 1: -2 ** 63}})),
         ("map-enum", KMap(**{fn("m_string_enum"): {"a": E(1), "b": E.try_value(12345), "c": E(-1)}})),
         ("map-inf", KMap(**{fn("m_string_double"): {"a": float("inf"), "b": float("-inf")}})),
+        # both zeros in one map, +0.0 first: the sign of a zero that IS written must survive (seeded change C04-4: a memoised
+        # dump keyed by ==, under which 0.0, -0.0 and 0 are one key)
+        ("map-both-zeros", KMap(**{fn("m_string_double"): {"p": 0.0, "n": -0.0, "q": 0.0}})),
+        ("repeated-both-zeros", KRep(**{fn("r_double"): [0.0, -0.0, 0.0, -0.0], fn("r_float"): [0.0, -0.0]})),
         ("map-msg", KMap(**{fn("m_string_message", "msg"): {"a": Inner(x=1), "b": Inner()}})),
         ("map-timestamp", KMap(**{fn("m_string_message", "datetime"): {"a": msggen.EPOCH, "b": msggen.EPOCH + timedelta(microseconds=-1)}})),
         ("map-duration", KMap(**{fn("m_string_message", "timedelta"): {"a": timedelta(1), "b": timedelta(microseconds=1)}})),
